@@ -213,18 +213,14 @@ Proof.
   destruct G as [CS Hll Hgr Hnll [Hsig M]].
   rewrite (step_ws_unfold ntoks i st _ (groups_under _ _ Hgr) Hadj).
   assert (Hslc : space_list_check st (first_group fs) = Ok true).
-  { unfold space_list_check. rewrite Hll.
-    destruct CS as [[Sp D F O] Cl _ _ _].
+  { destruct CS as [[Sp D F O] Cl _ _ _].
     destruct t as [j d k|j d k a|j d k a|j d k l r|j k a]; simpl in Cl; try contradiction;
-      simpl in D; destruct D as (n & Hn & A); cbn [nid]; rewrite Hn.
-    - destruct A as (_ & _ & A3 & _). rewrite (prio10_value_like _ A3). reflexivity.
-    - destruct A as (A1 & _). rewrite A1.
-      cbn [secondary_eqb secondary_index N.eqb Pos.eqb]. rewrite orb_true_r. reflexivity.
-    - destruct A as (_ & A2 & _). rewrite A2. cbn [is_value_like definition_eqb definition_index N.eqb Pos.eqb orb].
-      assert (Hne : opt_nat_eqb (Some j) (first_group fs) = false).
-      { destruct (first_group fs) as [g|] eqn:Eg; [|reflexivity]. apply opt_nat_eqb_some_neq.
-        pose proof (frames_have_lt _ _ _ F (first_group_has _ _ Eg)) as R. simpl in R. lia. }
-      rewrite Hne. reflexivity. }
+      simpl in D; destruct D as (n & Hn & A); cbn [nid] in Hll; apply (slc_operand st _ j n Hll Hn).
+    - left. destruct A as (_ & _ & A3 & _). apply prio10_value_like. exact A3.
+    - right. left. apply A.
+    - right. right. destruct A as (_ & A2 & _). split; [exact A2|].
+      destruct (first_group fs) as [g|] eqn:Eg; [|reflexivity]. apply opt_nat_eqb_some_neq.
+      pose proof (frames_have_lt _ _ _ F (first_group_has _ _ Eg)) as R. simpl in R. lia. }
   rewrite Hslc. cbn [bind]. rewrite Hll. eexists. split; [reflexivity|]. split; [|reflexivity].
   constructor; cbn [nodes last_left next_last_left];
     [exact CS|reflexivity|eapply groups_ok_same; [| | |exact Hgr]; reflexivity|reflexivity|].
@@ -240,18 +236,21 @@ Proof.
   destruct G as [PS Hll Hnp Hgr Hnll (Hcfl & Hsig & M)].
   rewrite (step_ws_unfold ntoks i st _ (groups_under _ _ Hgr) Hadj).
   assert (Hslc : space_list_check st (first_group fs) = Ok false).
-  { unfold space_list_check. rewrite Hll, Hcfl. destruct PS as [Sp _ _ _ FO].
-    destruct fs as [|f r]; [reflexivity|]. cbn [top_id].
+  { destruct PS as [Sp _ _ _ FO].
+    destruct fs as [|f r]; [rewrite (slc_none st _ Hll), Hcfl; reflexivity|]. cbn [top_id] in Hll.
     simpl in Sp. destruct Sp as [S1 _].
     destruct (frame_node_walk _ _ _ _ S1) as (nf & Hnf & Hdf & _ & _ & Hsf).
-    rewrite Hnf, Hdf, Hsf.
-    destruct f as [j d k l|j d k|j k].
-    - destruct (frame_def_facts2 _ (FO _ (or_introl eq_refl) eq_refl)) as (V1 & V2 & V3 & V4).
-      cbn [frame_def] in V1, V2, V3, V4 |- *. rewrite V1, V2, V3, V4. reflexivity.
-    - destruct (frame_def_facts2 _ (FO _ (or_introl eq_refl) eq_refl)) as (V1 & V2 & V3 & V4).
-      cbn [frame_def] in V1, V2, V3, V4 |- *. rewrite V1, V2, V3, V4. reflexivity.
-    - cbn [frame_def frame_id first_group is_value_like definition_eqb definition_index N.eqb Pos.eqb orb andb].
-      cbn [opt_nat_eqb]. rewrite Nat.eqb_refl. reflexivity. }
+    apply (slc_frame st _ (frame_id f) nf Hll Hnf Hcfl); rewrite ?Hdf; try exact Hsf.
+    - destruct f as [j d k l|j d k|j k]; [| |reflexivity];
+        apply (frame_def_facts2 _ (FO _ (or_introl eq_refl) eq_refl)).
+    - destruct f as [j d k l|j d k|j k]; [| |reflexivity];
+        apply (frame_def_facts2 _ (FO _ (or_introl eq_refl) eq_refl)).
+    - destruct f as [j d k l|j d k|j k].
+      + destruct (frame_def_facts2 _ (FO _ (or_introl eq_refl) eq_refl)) as (_ & V2 & V3 & _).
+        cbn [frame_def] in V2, V3 |- *. rewrite V2, V3. reflexivity.
+      + destruct (frame_def_facts2 _ (FO _ (or_introl eq_refl) eq_refl)) as (_ & V2 & V3 & _).
+        cbn [frame_def] in V2, V3 |- *. rewrite V2, V3. reflexivity.
+      + cbn [frame_def frame_id first_group opt_nat_eqb]. rewrite Nat.eqb_refl. reflexivity. }
   rewrite Hslc. cbn [bind].
   assert (Hl : match last_left st with
                | Some k => Some k
